@@ -201,6 +201,8 @@ func c15Check(c *core.Ctx, s histScenario) {
 		}
 		return true
 	}
+	var delBuf []uint64
+	reused := false
 	for bi, b := range h.Blocks {
 		f := m.Forest()
 		var targets []uint64
@@ -225,7 +227,15 @@ func c15Check(c *core.Ctx, s histScenario) {
 		if b.Adds > 65535 {
 			return
 		}
-		cs.AddBlockSummary(targets, uint16(b.Adds))
+		if (sel>>24)%2 == 0 {
+			// the caller refills ONE deletions buffer for every block (added after seeded change
+			// C15h: a tracker that keeps the caller's slice instead of a copy)
+			delBuf = append(delBuf[:0], targets...)
+			cs.AddBlockSummary(delBuf, uint16(b.Adds))
+			reused = true
+		} else {
+			cs.AddBlockSummary(targets, uint16(b.Adds))
+		}
 		if bi+1 == mid && len(m.Leaves) <= 2000 {
 			if !judge(bi+1, false) {
 				return
@@ -238,6 +248,12 @@ func c15Check(c *core.Ctx, s histScenario) {
 		if _, ok := created[sl]; ok {
 			qualifying++
 		}
+	}
+	for i := range delBuf {
+		delBuf[i] = ^uint64(0) // ... and the caller does what it likes with its buffer afterwards
+	}
+	if reused {
+		c.Count("histories_recorded_through_one_reused_deletions_buffer", 1)
 	}
 	if !judge(len(h.Blocks), true) {
 		return
